@@ -76,6 +76,10 @@ fn main() {
             std::thread::sleep(Duration::from_millis(30));
         }
     }
+    if beh["close_stdio"].as_bool().unwrap_or(false) {
+        // give up stdout and stderr right away and keep running: the parent sees EOF on both pipes long before the exit
+        unsafe { libc_close(1); libc_close(2); }
+    }
     if beh["wait"].as_bool().unwrap_or(false) {
         let rel = scen.join(format!("release_{}", seed));
         let t0 = Instant::now();
